@@ -93,6 +93,7 @@ type GenOpts struct {
 	Weights  [6]int // per op kind
 	Default  bool   // only default configs (partition path)
 	NoChunk  bool
+	Boundary bool // metadata at the snapshot format's length limits now and then
 }
 
 func GenCfg(maxDim int, onlyDefault bool) *rapid.Generator[Cfg] {
@@ -135,6 +136,9 @@ func Gen(o GenOpts) *rapid.Generator[History] {
 				s.Id = rapid.IntRange(0, nIds-1).Draw(t, "id")
 				s.Vec = vec.Draw(t, "vec")
 				s.Meta = rapid.IntRange(0, len(gen.MetaShapes)-1).Draw(t, "meta")
+				if o.Boundary && rapid.IntRange(0, 19).Draw(t, "boundary") == 0 {
+					s.Meta = len(gen.MetaShapes) + rapid.IntRange(0, len(gen.BoundaryMetaShapes)-1).Draw(t, "bmeta")
+				}
 				s.Level = gen.Level().Draw(t, "level")
 			case OpUpdate:
 				s.Id = rapid.IntRange(0, nIds-1).Draw(t, "id")
@@ -522,6 +526,13 @@ func (e *Exec) SaveLoad(s Step, where string) *pbt.Failure {
 	if len(e.Model) == 0 {
 		e.Obs.Label("saveload-empty")
 	}
+	for _, it := range e.Model {
+		for k, v := range it.Meta {
+			if len(k) >= 255 || len(v) >= 65535 {
+				e.Obs.Label("saveload-boundary-length-metadata")
+			}
+		}
+	}
 	if e.Or.RoundTrip {
 		if br.Len() != 0 {
 			return pbt.Failf("C08:bytes-left", "%s: %d of %d bytes left unread after Load", where, br.Len(), len(raw))
@@ -560,6 +571,15 @@ func Run(h History, or Oracles, o *pbt.Obs) *pbt.Failure {
 				lvl = 0 // first item of an empty index is stored at level 0
 			}
 			err := e.Idx.Insert(id, amath.Vector(append([]float32(nil), s.Vec...)), index.Metadata(gen.Meta(s.Meta)), s.Level)
+			if !gen.MetaFits(gen.Meta(s.Meta)) {
+				// metadata the storage format cannot represent is refused, nothing changes
+				if err != index.MetadataTooLargeError {
+					return pbt.Failf("C08:unrepresentable-metadata-accepted", "%s: Insert with metadata beyond the format's length limits returned %v", where, err)
+				}
+				o.Label("insert-refused-metadata-too-large")
+				rejected = true
+				break
+			}
 			if exists {
 				if or.Map && err != index.ItemAlreadyExistsError {
 					return pbt.Failf("C02:insert-existing", "%s: Insert of existing %s returned %v", where, gen.IDHex(id), err)
